@@ -250,21 +250,58 @@ Fixpoint subseq_gaps (r d : list Z) (gaps : nat) : option nat :=
          end) d gaps
   end.
 
+(* which envelopes of key k were LOST: delivered before the last one that was read, and never read *)
+Fixpoint upto (x : Z) (d : list Z) : list Z :=
+  match d with [] => [] | y :: t => if y =? x then [] else y :: upto x t end.
+Definition lost_of (r d : list Z) : list Z :=
+  match rev r with
+  | [] => []
+  | x :: _ => filter (fun v => negb (existsb (Z.eqb v) r)) (upto x d)
+  end.
+(* position of the delivery of (k, v) in the action list; positions of the Cancels of k *)
+Fixpoint pos_deliver (k v : Z) (acts : list act) (n : nat) : nat :=
+  match acts with
+  | [] => n
+  | ADeliver e :: t => if (ekey e =? k) && (eval e =? v) then n else pos_deliver k v t (S n)
+  | _ :: t => pos_deliver k v t (S n)
+  end.
+Fixpoint cancel_positions (k : Z) (acts : list act) (n : nat) : list nat :=
+  match acts with
+  | [] => []
+  | ACancelKey k' :: t => if k' =? k then n :: cancel_positions k t (S n) else cancel_positions k t (S n)
+  | _ :: t => cancel_positions k t (S n)
+  end.
+(* every lost envelope (positions ascending) is covered by a Cancel of its key of its own that comes LATER in the
+   action list: a Cancel can only cost the envelope whose hand-off is in progress when it happens, never one that
+   arrives after the Cancel has returned *)
+Fixpoint drop_le (p : nat) (cs : list nat) : list nat :=
+  match cs with [] => [] | c :: t => if Nat.leb c p then drop_le p t else cs end.
+Fixpoint covered (lost_pos cancels : list nat) : bool :=
+  match lost_pos with
+  | [] => true
+  | p :: t => match drop_le p cancels with [] => false | _ :: rest => covered t rest end
+  end.
+
 Definition keys_of (acts : list act) : list Z :=
   dedup Z.eqb (Explore.filter_map (fun a => match a with ADeliver e => Some (ekey e) | _ => None end) acts).
 
 (* reason 2: per key, what the logical connections of the key returned is an in-order sub-sequence of what was
    delivered with that key, each envelope at most once, unchanged, and at most one envelope is lost per Cancel
    of the key (none when the key is never cancelled and the demultiplexer is not stopped: an exact prefix);
-   every envelope was returned by a connection announced for its own key *)
+   every envelope was returned by a connection announced for its own key. The allowance is per Cancel and only
+   for an envelope delivered before that Cancel (the one whose hand-off was in progress): an envelope that
+   arrives after Cancel(k) has returned is never lost (seeded/C18_5) *)
 Definition spec_route (acts : list act) (observed : list dobs) : bool :=
   let cs := calls_of 0 0 acts observed in
   let is := insts_of 0 [] acts observed in
   forallb (fun k =>
     let dl := delivered k acts in
-    match subseq_gaps (reads_of_key k cs is dl observed) dl 0 with
+    let rd := reads_of_key k cs is dl observed in
+    match subseq_gaps rd dl 0 with
     | None => false
     | Some g => Nat.leb g (ncancel k acts)
+                (* ... and each lost envelope was delivered BEFORE a Cancel of the key that is its own *)
+                && covered (map (fun v => pos_deliver k v acts 0) (lost_of rd dl)) (cancel_positions k acts 0)
     end) (keys_of acts)
   && forallb (fun o => forallb (fun r =>
        match snd r with
@@ -290,6 +327,28 @@ Fixpoint spec_announce_from (live seen : list Z) (acts : list act) (observed : l
          | [] => spec_announce_from live seen1 acts' obs'
          | k :: t => negb (existsb (Z.eqb k) live) && existsb (Z.eqb k) seen1 && ann t (k :: live)
          end) (o_ann o) live1
+  | _, _ => true
+  end.
+
+(* reason 3, the other direction: first use of a key IS announced. When an envelope with key k is delivered while
+   the run loop is known to be free - the demultiplexer was not stopped, the shared Read has not failed, the run
+   loop was alive at the previous quiescent point and every envelope delivered before has been returned by a Read -
+   and k has no live instance (never announced, or cancelled since), then this very step announces k: the envelope
+   opens a NEW connection, whether or not the key was used and cancelled before. *)
+Fixpoint spec_fresh_from (live dl rd : list Z) (idle : bool) (acts : list act) (observed : list dobs) : bool :=
+  match acts, observed with
+  | a :: acts', o :: obs' =>
+      let live1 := match a with ACancelKey k => filter (fun x => negb (x =? k)) live | _ => live end in
+      let idle1 := match a with AStop | AFailRead => false | _ => idle end in
+      let ok := match a with
+                | ADeliver e =>
+                    if idle && forallb (fun v => existsb (Z.eqb v) rd) dl && negb (existsb (Z.eqb (ekey e)) live1)
+                    then existsb (Z.eqb (ekey e)) (o_ann o) else true
+                | _ => true
+                end in
+      let dl1 := match a with ADeliver e => eval e :: dl | _ => dl end in
+      let rd1 := Explore.filter_map (fun r => match snd r with RGot e => Some (eval e) | _ => None end) (o_rets o) ++ rd in
+      ok && spec_fresh_from (o_ann o ++ live1) dl1 rd1 (idle1 && o_run o) acts' obs'
   | _, _ => true
   end.
 
@@ -400,7 +459,7 @@ Definition check (c : c18case) : list nat :=
   | CDemux acts observed =>
       (match agree_from 0 [init] acts observed with None => [] | Some _ => [1%nat] end)
       ++ (if spec_route acts observed then [] else [2%nat])
-      ++ (if spec_announce_from [] [] acts observed then [] else [3%nat])
+      ++ (if spec_announce_from [] [] acts observed && spec_fresh_from [] [] [] true acts observed then [] else [3%nat])
       ++ (if spec_write acts observed then [] else [4%nat])
       ++ (if spec_cancel acts observed then [] else [5%nat])
       ++ (if spec_stop_from false acts observed then [] else [6%nat])
